@@ -398,7 +398,7 @@ func runC02(c *Ctx) int {
 	if c.Replay != "" {
 		return replayExplorer(c, mon)
 	}
-	cases := explorerCases(c.Seed, c.Pick(4, 6), c.Pick(300, 12000), 30, c.Pick(120, 200))
+	cases := explorerCases(c.Seed, c.Pick(4, 6), c.Pick(300, 3000), 30, c.Pick(120, 200))
 	agg := c.runExplorer(cases, mon, c.Pick(60, 200), nil)
 	cov := agg.coverage("part 1 (deterministic explorer): every legal sequence of {begin-reader, close-oldest, close-newest, writer-commit, writer-rollback, writer-commit-with-one-injected-I/O-fault, reopen} of the enumerated length (quick 5, thorough 6; up to 3 simultaneous readers), wrapped in warm-up/tail commits, plus seeded random sequences of 30..200 events; write batches overwrite the same keys, delete/recreate buckets and use multi-page values so that freed pages are recycled at once; after EVERY event EVERY open reader is completely re-dumped (forward, reverse, Get, ForEach) and compared with the model's version tx.ID(); configurations 1 KiB/4 KiB pages x both backends x freelist-sync on/off. distinct_nontrivial = distinct (ages of the open readers relative to the newest version, writer outcome incl. which I/O call failed) situations with at least one reader open.")
 
